@@ -433,22 +433,17 @@ func (tab *Table) bond(pinged bool, id NodeID, addr *net.UDPAddr, tcpPort uint16
 }
 
 func (tab *Table) pingpong(w *bondproc, pinged bool, id NodeID, addr *net.UDPAddr, tcpPort uint16) {
-	// Request a bonding slot to limit network usage
-	<-tab.bondslots
-	ok := true
-	go func() {
-		select {
-		case <-w.done:
-		case <-tab.bondslots:
-		case <-tab.closing:
-			ok = false
-		}
-	}()
-	defer func() {
-		if ok {
-			tab.bondslots <- struct{}{}
-		}
-	}()
+	// Request a bonding slot to limit network usage. Exactly the slot taken
+	// here is given back when the process ends; a table that is closing
+	// hands out no more slots and releases whoever waits for this process.
+	select {
+	case <-tab.bondslots:
+	case <-tab.closing:
+		w.err = errClosed
+		close(w.done)
+		return
+	}
+	defer func() { tab.bondslots <- struct{}{} }()
 
 	// Ping the remote side and wait for a pong
 	if w.err = tab.ping(id, addr); w.err != nil {
